@@ -13,28 +13,30 @@ JCCF = "yield,bwait,bpost,join+1,join+2,cancel+1,cancel+2,createY,createW,joinc,
 # (tag, alphabet, routines, max script length, max main-context actions (resume/cancel/cleanup) per run, param, processes[, max total steps])
 # param: initial semaphore count; for Condition 0 = Logic::kAll, 1 = Logic::kAny
 QUICK = [
-    ("ch", CH, 3, 3, 1, 0, 2, 7), ("mu", MU, 3, 3, 1, 0, 2, 7), ("sem0", SEM, 3, 3, 1, 0, 2, 7), ("sem1", SEM, 3, 3, 1, 1, 2, 7), ("bc", BC, 3, 3, 1, 0, 2, 7),
-    ("mu-len4", MU, 3, 4, 0, 0, 4, 8), ("ch-len4", CH, 3, 4, 0, 0, 4, 8), ("sem0-len4", SEM, 3, 4, 0, 0, 4, 8),
-    ("ch-2acts", CH, 3, 2, 2, 0, 2), ("mu-2acts", MU, 3, 2, 2, 0, 2), ("sem-2acts", SEM, 3, 2, 2, 0, 2), ("bc-2acts", BC, 3, 2, 2, 0, 2),
+    ("ch", CH, 3, 3, 1, 0, 2, 6), ("mu", MU, 3, 3, 1, 0, 2, 6), ("sem0", SEM, 3, 3, 1, 0, 2, 6), ("sem1", SEM, 3, 3, 1, 1, 2, 6), ("bc", BC, 3, 3, 1, 0, 2, 6),
+    ("mu-len4", MU, 3, 4, 0, 0, 4, 8), ("ch-len4", CH, 3, 4, 0, 0, 2, 7), ("sem0-len4", SEM, 3, 4, 0, 0, 2, 7),
+    ("ch-2acts", CH, 3, 2, 2, 0, 2, 4), ("mu-2acts", MU, 3, 2, 2, 0, 2, 4), ("sem-2acts", SEM, 3, 2, 2, 0, 2, 4), ("bc-2acts", BC, 3, 2, 2, 0, 2, 4),
     ("condAll", COND, 3, 2, 1, 0, 2), ("condAny", COND, 3, 2, 1, 1, 2), ("condAll-2r", COND, 2, 3, 1, 0, 2), ("condAny-2r", COND, 2, 3, 1, 1, 2),
     ("condAll-2r-2acts", COND, 2, 2, 2, 0, 1), ("condAny-2r-2acts", COND, 2, 2, 2, 1, 1),
-    ("mix", MIX, 3, 2, 0, 0, 4), ("mix-2r", MIX, 2, 2, 2, 0, 4), ("jcc3", JCC3, 3, 2, 1, 0, 8, 5), ("jcc2", JCC2, 2, 2, 2, 0, 8),
+    ("mix", MIX, 3, 2, 0, 0, 4), ("mix-1act", MIX, 3, 2, 1, 0, 1, 3), ("mix-2r", MIX, 2, 2, 1, 0, 1),
+    ("jcc3", JCC3, 3, 2, 1, 0, 6, 4), ("jcc2", JCC2, 2, 2, 1, 0, 2), ("jcc2-2acts", JCC2, 2, 2, 2, 0, 4, 3),
 ]
 THOROUGH = [
-    # script length 4, every program, no main-context action; with one action for programs of <= 9 steps in total
+    # scripts of <= 4 steps: every program without main-context action; one action for programs of <= 8 (7) steps in total
     ("ch-len4", CH, 3, 4, 0, 0, 16), ("mu-len4", MU, 3, 4, 0, 0, 16), ("sem0-len4", SEM, 3, 4, 0, 0, 16), ("sem1-len4", SEM, 3, 4, 0, 1, 16), ("bc-len4", BC, 3, 4, 0, 0, 16),
-    ("ch-len4-1act", CH, 3, 4, 1, 0, 32, 9), ("mu-len4-1act", MU, 3, 4, 1, 0, 32, 9), ("sem0-len4-1act", SEM, 3, 4, 1, 0, 32, 9), ("sem1-len4-1act", SEM, 3, 4, 1, 1, 32, 9), ("bc-len4-1act", BC, 3, 4, 1, 0, 32, 9),
-    # script length 3, every program, up to two actions
-    ("ch-2acts", CH, 3, 3, 2, 0, 32), ("mu-2acts", MU, 3, 3, 2, 0, 32), ("sem0-2acts", SEM, 3, 3, 2, 0, 32), ("bc-2acts", BC, 3, 3, 2, 0, 32), ("sem1-1act", SEM, 3, 3, 1, 1, 8),
-    ("mu-len4-2acts", MU, 3, 4, 2, 0, 32, 7),
-    ("condAll", COND, 3, 3, 1, 0, 16, 7), ("condAny", COND, 3, 3, 1, 1, 16, 7), ("condAll-2acts", COND, 3, 2, 2, 0, 8), ("condAny-2acts", COND, 3, 2, 2, 1, 8),
-    ("bcc", BCC, 3, 2, 1, 0, 8),
-    ("mix", MIX, 3, 2, 1, 0, 16), ("mix-2r", MIX, 2, 3, 1, 0, 16), ("jcc3", JCC3, 3, 2, 1, 0, 16), ("jcc3-2acts", JCC3, 3, 2, 2, 0, 16, 4),
-    ("jccf", JCCF, 3, 2, 1, 0, 16, 4), ("jccf-0act", JCCF, 3, 2, 0, 0, 16, 5),
-    ("jcc2", JCC2, 2, 3, 1, 0, 32), ("jcc2-2acts", JCC2, 2, 2, 2, 0, 8),
+    ("ch-len4-1act", CH, 3, 4, 1, 0, 32, 8), ("mu-len4-1act", MU, 3, 4, 1, 0, 32, 8), ("sem0-len4-1act", SEM, 3, 4, 1, 0, 32, 8), ("sem1-len4-1act", SEM, 3, 4, 1, 1, 16, 7), ("bc-len4-1act", BC, 3, 4, 1, 0, 16, 7),
+    # scripts of <= 3 steps: every program with one action; two actions for programs of <= 6 steps in total
+    ("ch", CH, 3, 3, 1, 0, 16), ("mu", MU, 3, 3, 1, 0, 16), ("sem0", SEM, 3, 3, 1, 0, 16), ("sem1", SEM, 3, 3, 1, 1, 16), ("bc", BC, 3, 3, 1, 0, 16),
+    ("ch-2acts", CH, 3, 3, 2, 0, 32, 6), ("mu-2acts", MU, 3, 3, 2, 0, 32, 6), ("sem0-2acts", SEM, 3, 3, 2, 0, 32, 6), ("bc-2acts", BC, 3, 3, 2, 0, 32, 6),
+    ("mu-len4-2acts", MU, 3, 4, 2, 0, 48, 6),
+    ("condAll", COND, 3, 3, 1, 0, 16, 6), ("condAny", COND, 3, 3, 1, 1, 16, 6), ("condAll-2acts", COND, 3, 2, 2, 0, 8, 4), ("condAny-2acts", COND, 3, 2, 2, 1, 8, 4),
+    ("bcc", BCC, 3, 2, 1, 0, 16),
+    ("mix", MIX, 3, 2, 1, 0, 32), ("mix-2r", MIX, 2, 3, 1, 0, 16), ("jcc3", JCC3, 3, 2, 1, 0, 32), ("jcc3-2acts", JCC3, 3, 2, 2, 0, 8, 3),
+    ("jccf", JCCF, 3, 2, 1, 0, 16, 4), ("jccf-0act", JCCF, 3, 2, 0, 0, 8, 5),
+    ("jcc2", JCC2, 2, 3, 1, 0, 16, 5), ("jcc2-2acts", JCC2, 2, 2, 2, 0, 16),
 ]
-ASAN_INFO = [("asan-ch", CH, 3, 2, 1, 0, 2), ("asan-mu", MU, 3, 3, 0, 0, 2), ("asan-sem", SEM, 3, 2, 1, 0, 2), ("asan-bc", BC, 3, 2, 1, 0, 2),
-             ("asan-cond", COND, 3, 2, 0, 0, 2), ("asan-jcc2", JCC2, 2, 2, 1, 0, 2)]
+ASAN_INFO = [("asan-ch", CH, 3, 2, 1, 0, 2, 4), ("asan-mu", MU, 3, 3, 0, 0, 2, 6), ("asan-sem", SEM, 3, 2, 1, 0, 2, 4), ("asan-bc", BC, 3, 2, 1, 0, 2, 4),
+             ("asan-cond", COND, 3, 2, 0, 0, 2), ("asan-jcc2", JCC2, 2, 2, 1, 0, 2, 3)]
 
 def cmds(exe, cfgs, only):
     out = []
@@ -76,12 +78,13 @@ def main(tier, args):
     desc = "; ".join("%s{%s} nr=%d len<=%d acts<=%d param=%d" % c[:6] + (" total<=%d" % c[7] if len(c) > 7 else "") for c in cfgs)
     vf.finish(PID, tier, res, t0,
               rule="every program of <=3 routines x every script of <= len ops over the family alphabet (families enumerated exhaustively: " + desc + ") "
-                   "x every main-context schedule (loop passes until the scheduler is idle, with up to `acts` resume(r)/cancel(r)/cleanup actions placed at every pass boundary, "
-                   "final cleanup()), each run on a fresh real Loop + Scheduler + Channel/Mutex/Semaphore/Broadcast/Condition; "
+                   "x every main-context schedule (scheduler rounds until no routine is ready, with up to `acts` resume(r)/cancel(r)/cleanup actions placed before every scheduler round and at idle, "
+                   "final cleanup()), each run on a real epoll Loop (kForever, one loop per program) + fresh Scheduler + Channel/Mutex/Semaphore/Broadcast/Condition; "
                    "oracle = reference model (FIFO exactly-once, one holder, acquisitions<=releases+initial) after every pass, lost-wake-up invariants whenever ready queue is empty "
                    "(private state read with -fno-access-control), cancel/cleanup termination with failure, join liveness and safety; "
                    "states = distinct canonical idle states (summed per process), executions = program x schedule runs",
               assumptions=["verdict from the plain (uninstrumented) build; the ASan/UBSan build is run on a sub-space and reported as information only (ASan + swapcontext false-positive warning on this image)",
+                           "the Scheduler is given a forwarding proxy of the real Loop that only inserts the main context's step in front of each deferred Scheduler::schedule call (runLoop(kOnce) would drain all deferred calls, i.e. run the scheduler to idle, and hide every intermediate point)",
                            "routine stacks are 64 KiB instead of the 8 KiB default (stack size is not part of the property)",
                            "routines leave on any failed blocking call and release a mutex they hold on that path (as Mutex::Locker does)",
                            "child routines made by a `create` step run a fixed one-step script (yield or broadcast-wait); at most 2 children per run",
